@@ -3,6 +3,7 @@ Protocol oracle for C04: the documented run-state / replication-state rules as a
 the reference DEVS interpreter, and the notification-stream automaton (monitor M3).
 Abstract quiescent states: NI (not initialised), II (initialised), SS (stopped, replication started), EE (ended).
 """
+from vlib.simharness import num
 from vlib.refdevs import Ref, WARMUP, tnum
 
 STATES = {"NI": ("NOT_INITIALIZED", "NOT_INITIALIZED"), "II": ("INITIALIZED", "INITIALIZED"),
@@ -23,7 +24,7 @@ class ProtoRef:
         r = self.ref
         if self.state == "NI":
             return {"state": "NI"}
-        return {"state": self.state, "clock": float(r.clock), "pending": len(r.pending)}
+        return {"state": self.state, "clock": num(r.clock), "pending": len(r.pending)}
 
     def apply(self, cmd):
         """returns the expectation for `cmd` issued at quiescence:
